@@ -63,6 +63,10 @@ type c13Gate struct {
 	VersionByte int  `json:"version_byte"` // 0..255: direction bit included
 	Op          int  `json:"opcode"`
 	V3Layout    bool `json:"v3_layout,omitempty"` // send a 9-byte header even for version bytes < 3
+	// Embedded (unknown version bytes only): the two bytes (version, flags) are followed at once by a complete,
+	// valid v4 QUERY frame. Read as one frame of the unknown version, the QUERY's bytes lie inside its header and
+	// declared body; a proxy that answers the error and resumes parsing behind the version check would forward them.
+	Embedded bool `json:"embedded_valid_frame,omitempty"`
 }
 
 func c13Body(op primitive.OpCode, token string) []byte {
@@ -109,7 +113,12 @@ func c13GateCheck(c c13Gate) *evid.Fail {
 	tok := nextToken()
 	before := backendHandshakeFrames(e.Cluster)
 	f := &wire.Frame{VersionByte: vb, Stream: 9, Op: byte(c.Op), Body: c13Body(primitive.OpCode(c.Op), tok), ForceV3Layout: c.V3Layout}
-	if err := cl.SendFrame(f); err != nil {
+	if c.Embedded && !c13Known[ver] {
+		inner := &wire.Frame{VersionByte: 4, Stream: 9, Op: byte(primitive.OpCodeQuery), Body: c13Body(primitive.OpCodeQuery, tok)}
+		if err := cl.Send(append([]byte{vb, 0x00}, inner.Bytes()...)); err != nil {
+			return evid.Failf("harness-send", "%v", err)
+		}
+	} else if err := cl.SendFrame(f); err != nil {
 		return evid.Failf("harness-send", "%v", err)
 	}
 	where := fmt.Sprintf("version byte %#x opcode %d under max-version %s", vb, c.Op, protogen.VersionName(primitive.ProtocolVersion(maxV)))
@@ -240,6 +249,112 @@ func fenceAt(cl *rawcli.Client, v primitive.ProtocolVersion) (*rawcli.Recv, erro
 		return nil, fmt.Errorf("OPTIONS answered with opcode %d", r.F.Op)
 	}
 	return r, nil
+}
+
+// ---- pipelined handshake: STARTUP and the first requests leave the client in one write ----
+
+type c13Pipe struct {
+	MaxVersion  int    `json:"max_version"`
+	Version     int    `json:"version"`
+	Compression string `json:"compression"` // as spelled in STARTUP ("" = none)
+	Options     int    `json:"options_before"`
+	Queries     []bool `json:"queries_compressed"` // one entry per pipelined query: sent compressed?
+}
+
+func c13PipeCheck(c c13Pipe) *evid.Fail {
+	ctl := primitive.ProtocolVersion4
+	if primitive.ProtocolVersion(c.MaxVersion) < ctl {
+		ctl = primitive.ProtocolVersion(c.MaxVersion)
+	}
+	e, err := startEnv(envOpts{Hosts: 1, NumConns: 1, Version: ctl, MaxVersion: primitive.ProtocolVersion(c.MaxVersion), Keyspaces: []string{"ks1"}, HeartBeat: time.Hour, Idle: 2 * time.Hour})
+	if err != nil {
+		return evid.Failf("harness-env", "%v", err)
+	}
+	defer e.Close()
+	v := primitive.ProtocolVersion(c.Version)
+	cl, err := e.rawClient()
+	if err != nil {
+		return evid.Failf("harness-client", "%v", err)
+	}
+	alg := strings.ToLower(c.Compression)
+	var buf []byte
+	stream := int16(0)
+	add := func(f *wire.Frame, err error) *evid.Fail {
+		if err != nil {
+			return evid.Failf("harness-build", "%v", err)
+		}
+		buf = append(buf, f.Bytes()...)
+		return nil
+	}
+	for i := 0; i < c.Options; i++ {
+		stream++
+		if f := add(wire.Msg(v, false, stream, &message.Options{}, "")); f != nil {
+			return f
+		}
+	}
+	o := map[string]string{"CQL_VERSION": "3.0.0"}
+	if c.Compression != "" {
+		o["COMPRESSION"] = c.Compression
+	}
+	stream++
+	startupStream := stream
+	if f := add(wire.Msg(v, false, stream, &message.Startup{Options: o}, "")); f != nil {
+		return f
+	}
+	toks := map[int16]string{}
+	for _, compressed := range c.Queries {
+		stream++
+		tok := nextToken()
+		toks[stream] = tok
+		if f := add(buildFrame(v, stream, &message.Query{Query: "SELECT * FROM ks1.t WHERE k = '" + tok + "'", Options: &message.QueryOptions{Consistency: primitive.ConsistencyLevelOne}}, false, alg, compressed && alg != "")); f != nil {
+			return f
+		}
+	}
+	if err := cl.Send(buf); err != nil {
+		return evid.Failf("harness-send", "%v", err)
+	}
+	cl.Comp = alg
+	where := fmt.Sprintf("pipelined OPTIONS x%d, STARTUP(COMPRESSION=%q), %d queries (v%d, max %d)", c.Options, c.Compression, len(c.Queries), c.Version, c.MaxVersion)
+	stallReset()
+	if !cl.WaitN(int(stream), posWait) {
+		if stalled(posWait) {
+			return evid.Failf("harness-stall", "stalled")
+		}
+		return evid.Failf("pipelined-no-reply", "%s: %d of %d frames answered (peer closed=%v)", where, cl.NumFrames(), stream, cl.PeerClosed())
+	}
+	cl.Quiesce(3*time.Millisecond, 60*time.Millisecond)
+	seen := map[int16]int{}
+	for _, fr := range cl.Frames() {
+		seen[fr.F.Stream]++
+		switch {
+		case fr.F.Stream == startupStream:
+			if primitive.OpCode(fr.F.Op) != primitive.OpCodeReady {
+				return evid.Failf("pipelined-startup-reply", "%s: STARTUP answered with opcode %d", where, fr.F.Op)
+			}
+		case toks[fr.F.Stream] != "":
+			b, err := cl.Decode(fr)
+			if err != nil {
+				return evid.Failf("pipelined-undecodable", "%s: answer on stream %d cannot be decoded with %q: %v", where, fr.F.Stream, alg, err)
+			}
+			ei, ok := parseEcho(b.Message)
+			if !ok || ei.Tok != toks[fr.F.Stream] {
+				return evid.Failf("pipelined-query-failed", "%s: query on stream %d answered with %v", where, fr.F.Stream, b.Message)
+			}
+			if ei.Comp != alg {
+				return evid.Failf("pipelined-wrong-compression", "%s: the query ran on a backend connection with compression %q", where, ei.Comp)
+			}
+		default:
+			if primitive.OpCode(fr.F.Op) != primitive.OpCodeSupported {
+				return evid.Failf("pipelined-options-reply", "%s: OPTIONS answered with opcode %d", where, fr.F.Op)
+			}
+		}
+	}
+	for st := int16(1); st <= stream; st++ {
+		if seen[st] != 1 {
+			return evid.Failf("pipelined-reply-count", "%s: %d frames on stream %d", where, seen[st], st)
+		}
+	}
+	return nil
 }
 
 // ---- generated handshake sequences ----
@@ -581,10 +696,34 @@ func TestC13(t *testing.T) {
 		if c.VersionByte&0x7f < 3 {
 			c.V3Layout = rapid.Bool().Draw(rt, "v3layout")
 		}
-		rec.Case(fmt.Sprintf("gate:%v", c), c13GateLabel(c))
+		if !c13Known[c.VersionByte&0x7f] && c.VersionByte&0x7f >= 3 {
+			c.Embedded = rapid.Bool().Draw(rt, "embedded")
+		}
+		rec.Case(fmt.Sprintf("gate:%v", c), c13GateLabel(c), map[bool]string{true: "unknown-version+embedded-valid-frame", false: ""}[c.Embedded])
 		rec.Sample(c)
 		return c
 	}, c13GateCheck)
+
+	runProp(t, rec, "pipelined", perShard(evid.Pick(400, 30000)), func(rt *rapid.T) c13Pipe {
+		maxV := protogen.Version(rt)
+		var accepted []primitive.ProtocolVersion
+		for _, x := range protogen.Versions {
+			if x <= maxV || (x >= 65 && maxV >= x) {
+				if int(x) <= int(maxV) {
+					accepted = append(accepted, x)
+				}
+			}
+		}
+		v := accepted[rapid.IntRange(0, len(accepted)-1).Draw(rt, "v")]
+		c := c13Pipe{MaxVersion: int(maxV), Version: int(v), Compression: rapid.SampledFrom([]string{"", "lz4", "snappy", "LZ4", "Snappy"}).Draw(rt, "comp"),
+			Options: rapid.IntRange(0, 2).Draw(rt, "options"), Queries: rapid.SliceOfN(rapid.Bool(), 1, 6).Draw(rt, "queries")}
+		if v == primitive.ProtocolVersion5 && strings.EqualFold(c.Compression, "snappy") {
+			c.Compression = "lz4"
+		}
+		rec.Case("pipe:"+js(c), "pipelined-handshake", "pipelined-comp:"+strings.ToLower(c.Compression))
+		rec.Sample(c)
+		return c
+	}, c13PipeCheck)
 
 	runProp(t, rec, "sequence", perShard(evid.Pick(1600, 150000)), func(rt *rapid.T) c13Seq {
 		c := c13GenSeq(rt)
